@@ -242,7 +242,7 @@ var c14Part = evid.Part[C14Case]{
 				}
 				ch := graph.Children(cur)
 				if len(ch) == 0 || rapid.IntRange(0, 4).Draw(t, "astray") == 0 {
-					segs = append(segs, rapid.SampledFrom([]string{"x", "", "0", "1", "02", "+2", "-0", "-1", "1.0", "99", "a", "/", "a/b", "\x00", "9223372036854775808"}).Draw(t, "odd"))
+					segs = append(segs, rapid.SampledFrom([]string{"x", "", "0", "1", "02", "+2", "-0", "-1", "1.0", "99", "a", "/", "a/b", "\x00", "9223372036854775808", "0x1", "0X0", "0b1", "0o1", "1_0", "0_1", "1e0", " 1", "1 "}).Draw(t, "odd"))
 					break
 				}
 				e := ch[rapid.IntRange(0, len(ch)-1).Draw(t, "child")]
